@@ -164,7 +164,7 @@ class IncTree:
     def _load(self, r):
         p = os.path.join(self.root, r)
         try:
-            with env.real_open(p, "rb") as g:
+            with env.IN_LAYER, env.real_open(p, "rb") as g:  # the harness's own access, not the code under test's
                 c = g.read()
             self.files[r] = c
             self.dig[r] = hashlib.blake2b(c, digest_size=8).digest()
